@@ -468,7 +468,9 @@ func relocForms(v ssa.Value, busy map[ssa.Value]bool, depth int, facts []Fact) (
 			if dead[i] {
 				continue // ruled out where the value is used (e.g. the error exit of the PC parser)
 			}
-			fs, w := relocForms(e, busy, depth+1, facts)
+			// what holds on this incoming edge also decides merges further up
+			ef := append(append([]Fact{}, facts...), edgeFactsOf(x, i)...)
+			fs, w := relocForms(e, busy, depth+1, ef)
 			if w != "" {
 				return nil, w
 			}
